@@ -5,7 +5,7 @@
    No Extract Constant / Extract Inductive of our own. *)
 Require Extraction.
 Require Import ExtrOcamlBasic.
-From Otter Require Import Base Sketch Seq Spec Policy Wheel Maint.
+From Otter Require Import Base Sketch Seq Spec Policy Wheel Maint Ring Mpsc.
 (* run with cwd = /verif/ocaml: the extracted files land in the current directory *)
 Extraction "model.ml"
   Base.wrapu Base.wraps Base.satadd Base.abs64
@@ -17,4 +17,7 @@ Extraction "model.ml"
   Maint.pol Maint.whl Maint.rbuf Maint.wbuf Maint.m_run_tasks
   Policy.qwin Policy.qprob Policy.qprot Policy.maxi Policy.wsize Policy.wmax Policy.wwsize Policy.pmax Policy.pwsize Policy.sk Policy.store Policy.node_of
   Policy.pstate Policy.pqueue Policy.pweight Policy.pkey
-  Wheel.wtime Wheel.wlevels Wheel.tid Wheel.tkey Wheel.wheel0 Wheel.wheel_add Wheel.wheel_delete Wheel.wheel_delete_expired Wheel.wheel_pos.
+  Wheel.wtime Wheel.wlevels Wheel.tid Wheel.tkey Wheel.wheel0 Wheel.wheel_add Wheel.wheel_delete Wheel.wheel_delete_expired Wheel.wheel_pos
+  Ring.ring_init Ring.ring_step Ring.rprods Ring.rcons Ring.rhead Ring.rtail Ring.delivered Ring.recorded Ring.slots_occupied
+  Mpsc.mpsc_new Mpsc.push_reserve Mpsc.push_publish Mpsc.try_push Mpsc.try_pop Mpsc.mpsc_size Mpsc.mpsc_capacity
+  Mpsc.pidx Mpsc.cidx Mpsc.plimit Mpsc.pmask Mpsc.cmask Mpsc.pbuf Mpsc.cbuf Mpsc.buf_len.
